@@ -259,6 +259,7 @@ pub async fn boot() -> Option<i32> {
         ..Default::default()
     };
     sim::start(cfg);
+    sim::set_keep_events(plan.want_events);
     install_panic_hook();
     for (p, c) in plan.files.iter() {
         let data = if let Some(h) = c.strip_prefix("hex:") { actors::unhex(h) } else { c.as_bytes().to_vec() };
@@ -448,6 +449,7 @@ fn write_result(plan: &Plan, extra: Value) {
         "seed": plan.seed,
         "end_us": sim::now_us(),
         "log_hash": format!("{:016x}", sim::log_hash()),
+        "shape_hash": format!("{:016x}", sim::shape_hash()),
         "records": *sh.records.lock().unwrap(),
         "panics": *sh.panics.lock().unwrap(),
         "harness_error": sim::harness_error(),
